@@ -102,7 +102,7 @@ PROPS = {
     },
     "C08": {
         "level": "proof",
-        "verus": ["c08_push_count"],
+        "verus": ["c08_push_count", "c08_get_keys"],
         "kani": [],
     },
     "C09": {
